@@ -33,6 +33,7 @@ ASSUMPTIONS = [
     "configurations in which a resampling stage would produce a non-integer target size are the domain of known finding K4 (truncating resize, C04) and are counted as skipped_k4_domain; scenes grow by an integer factor so that eff_scale is preserved",
     "tolerance = half an output-stride cell mapped back to the original frame plus the resampling phase the ideal network cannot see through: half a model-input pixel, or 0.5*|s_total-1| input px when the total up-scaling exceeds 2 (the half-pixel convention of known finding K4), plus 0.06 input px for the ideal network's own sub-pixel localisation accuracy",
     "top-down scenes: the animal count grows from frame 0 to frame 1; with batch 3 and the video reader a frame without any animal is also placed first (thorough: also between the two) in the batch and must yield no record while the other frames keep theirs",
+    "top-down crops: square, and (crop, crop+16) / (crop+16, crop) non-square crops on a sub-grid (label reader, batch 3, centroid scale 1 in quick; all label-reader cases in thorough)",
     "grid values: see bounds; other values are outside the bound",
 ]
 
@@ -216,10 +217,10 @@ def run_topdown(case, tmp):
     def mk():
         if case["model"] == "topdown-gt":
             # centred-instance model only: centroids come from the labelled instances (anchor node 0)
-            return I.topdown_gt_predictor(3, 0, case["i_scale"], case["i_max_stride"], case["i_stride"], 1.5, case["crop"], (mh, mw), case["refinement"], case["batch"], sk)
+            return I.topdown_gt_predictor(3, 0, case["i_scale"], case["i_max_stride"], case["i_stride"], 1.5, case.get("crop_hw") or case["crop"], (mh, mw), case["refinement"], case["batch"], sk)
         p = I.topdown_predictor(
             3, 0, case["c_scale"], case["i_scale"], case["c_max_stride"], case["i_max_stride"], case["c_stride"], case["i_stride"], 1.5,
-            case["crop"], (mh, mw), case["refinement"], case["batch"], sk,
+            case.get("crop_hw") or case["crop"], (mh, mw), case["refinement"], case["batch"], sk,
         )
         # the ideal centroid net clusters discs: give it the link distance in ITS input pixels
         p.inference_model.centroid_crop.torch_model.link = 2.6 * a * case["c_scale"] * eff
@@ -295,6 +296,13 @@ def grid(tier):
             "model": "topdown", "hw": list(hw), "max_hw": list(mx), "c_scale": c, "i_scale": i, "c_max_stride": 16, "i_max_stride": 16 if cr % 16 == 0 else 8,
             "c_stride": cst, "i_stride": ist, "crop": cr, "refinement": rf, "batch": b, "provider": prov, "animals": an, "layout": lay,
         })
+    # non-square crops (height != width), landscape and portrait; "crop" stays the smaller side (it sizes the animals)
+    extra = []
+    for c in cases:
+        if c["model"] == "topdown" and c["provider"] == "LabelsReader" and (tier != "quick" or (c["batch"] == 3 and c["c_scale"] == 1.0)):
+            extra.append(dict(c, crop_hw=[c["crop"], c["crop"] + 16]))
+            extra.append(dict(c, crop_hw=[c["crop"] + 16, c["crop"]]))
+    cases += extra
     # a frame without animals first / in the middle of a 3-frame batch (VideoReader: plain frames)
     extra = []
     for c in cases:
